@@ -248,6 +248,54 @@ def _pattern_info(pattern: str, flags: int = 0) -> Tuple[int, Set[int], Dict[str
     return comp.groups, optional, dict(comp.groupindex)
 
 
+def regex_example(pattern: str, flags: int = 0) -> Optional[str]:
+    """Some text the pattern matches (every optional part taken once) - used to build replay inputs, verified natively."""
+    try:
+        import re._parser as sre_parse          # python >= 3.11
+    except ImportError:  # pragma: no cover
+        import sre_parse  # type: ignore[no-redef]
+
+    def cat(av: Any) -> str:
+        name = str(av)
+        return {"CATEGORY_DIGIT": "1", "CATEGORY_SPACE": " ", "CATEGORY_WORD": "a", "CATEGORY_NOT_DIGIT": "a",
+                "CATEGORY_NOT_SPACE": "a", "CATEGORY_NOT_WORD": " "}.get(name, "a")
+
+    def gen(items: Any) -> str:
+        out = []
+        for op, av in items:
+            name = str(op)
+            if name == "LITERAL":
+                out.append(chr(av))
+            elif name == "NOT_LITERAL":
+                out.append("x" if av != ord("x") else "y")
+            elif name == "ANY":
+                out.append("x")
+            elif name == "IN":
+                neg = any(str(o) == "NEGATE" for o, _ in av)
+                if neg:
+                    out.append("x")
+                else:
+                    o, a = av[0]
+                    out.append(chr(a) if str(o) == "LITERAL" else chr(a[0]) if str(o) == "RANGE" else cat(a))
+            elif name == "CATEGORY":
+                out.append(cat(av))
+            elif name in ("MAX_REPEAT", "MIN_REPEAT", "POSSESSIVE_REPEAT"):
+                lo, _hi, sub = av
+                out.append(gen(sub) * max(lo, 1))
+            elif name == "SUBPATTERN":
+                out.append(gen(av[3]))
+            elif name == "ATOMIC_GROUP":
+                out.append(gen(av))
+            elif name == "BRANCH":
+                out.append(gen(av[1][0]))
+        return "".join(out)
+    try:
+        text = gen(sre_parse.parse(pattern, flags))
+        return text if re.search(pattern, text, flags) else None
+    except Exception:  # noqa: BLE001
+        return None
+
+
 class SymMatch:
     """A successful match of a concrete pattern against a symbolic text."""
 
@@ -420,6 +468,7 @@ def install(eng: Any) -> None:  # noqa: C901
                 raise OutsideSubset(f"re.{which} on {type(string).__name__}")
             if e.choose(2) == 0:
                 return None
+            e.effects.append(("re-pattern-matched", pattern))     # hint for building a concrete replay text
             return SymMatch(e, ngroups, optional, names, pattern)
         return h
     for w in ("search", "match", "fullmatch"):
@@ -493,8 +542,9 @@ def model_text(eng: Any, pc: Sequence[Any], var: T, timeout: float = 20.0) -> Op
     return None
 
 
-def literal_candidates(pc: Sequence[Any], var: T) -> List[str]:
-    """Cheap concrete candidates built from the string constants the path condition requires to occur in `var`."""
+def literal_candidates(pc: Sequence[Any], var: T, effects: Sequence[Tuple[str, Any]] = ()) -> List[str]:
+    """Cheap concrete candidates built from the string constants the path condition requires to occur in `var` and from
+    example texts of the regular expressions that matched on the path."""
     pos: List[str] = []
     for c in pc:
         if not is_sym(c):
@@ -507,8 +557,15 @@ def literal_candidates(pc: Sequence[Any], var: T) -> List[str]:
             if v is not None and v not in pos:
                 pos.append(v)
     out: List[str] = []
-    if pos:
-        out.append(" ".join(pos))
-        out.append("Error: " + " ".join(pos) + " x")
-        out.append(": ".join(pos))
+    examples = [x for x in (regex_example(p) for k, p in effects if k == "re-pattern-matched") if x]
+    if pos or examples:
+        base = [" ".join(pos), "Error: " + " ".join(pos) + " x", ": ".join(pos)] if pos else []
+        for b in list(base):
+            for ex in examples:
+                base.insert(0, b + " " + ex)
+        base += examples
+        for b in base:
+            for v in (b, b.upper()):          # the mappers test a lower-cased copy but cut the original text
+                if v not in out:
+                    out.append(v)
     return out
